@@ -23,7 +23,7 @@ EXTENDS Integers, Sequences, FiniteSets, SequencesExt
 
 Ids(starts) == 0 .. (Len(starts) - 1)
 
-Ascending(s) == \A j \in 1 .. (Len(s) - 1) : s[j] < s[j + 1]            \* strictly: no duplicates either
+IsAscending(s) == \A j \in 1 .. (Len(s) - 1) : s[j] < s[j + 1]            \* strictly: no duplicates either
 SortedSeq(S) == SetToSortSeq(S, LAMBDA a, b : a < b)
 
 ---------------------------------------------------------------------------
